@@ -247,6 +247,28 @@ func (it *iter) Next() interface{} {
 }
 
 // richData: equal data = the same constructor run again (fresh instances, fresh counters).
+// Two struct types that PRINT alike (both are "c13.row": declared inside different functions) and hold the same
+// fields in another order. Executions get one or the other in turn: equal data, equal output.
+var rowFlip int64
+
+func rowA() interface{} {
+	type row struct {
+		ID   int
+		Name string
+		Tags []string
+	}
+	return row{ID: 7, Name: "seven", Tags: []string{"t<1>"}}
+}
+
+func rowB() interface{} {
+	type row struct {
+		Tags []string
+		Name string
+		ID   int
+	}
+	return row{ID: 7, Name: "seven", Tags: []string{"t<1>"}}
+}
+
 func richData(trace *[]string) map[string]interface{} {
 	d := progs.Data()
 	bob := &obj{Name: "Bob", Tags: []string{"b1"}, Meta: map[string]interface{}{}, trace: trace}
@@ -257,6 +279,13 @@ func richData(trace *[]string) map[string]interface{} {
 		"ann": ann, "bob": bob, "objs": []*obj{ann, bob}, "uval": obj{Name: "Val", trace: trace}, "nilp": (*obj)(nil),
 		"strs": []string{"p", "q"}, "ints": []int{4, 5, 6}, "when": time.Date(2020, 2, 3, 4, 5, 6, 0, time.UTC), "html": template.HTML("<b>ok</b>"),
 		"it": &iter{},
+		"row": func() interface{} {
+			if atomic.AddInt64(&rowFlip, 1)%2 == 0 {
+				return rowA()
+			}
+			return rowB()
+		}(),
+		"rows": []interface{}{rowA(), rowB(), rowA()},
 		"tagopt": func(opts map[string]interface{}) string {
 			if c, ok := opts["class"].(string); ok {
 				opts["class"] = c + " btn"
@@ -736,6 +765,8 @@ func arrayShape(t *rapid.T) Tmpl {
 
 // pieces over the rich data; every one renders without error on its own (a failing piece would cut the rest short)
 var richPieces = []string{
+	// a struct whose type changes from execution to execution to one that prints alike and is laid out differently
+	`<%= row.Name %>/<%= row.ID %>/<%= row.Tags[0] %>`, `<%= for (r) in rows { %><%= r.Name %>:<%= r.ID %>;<% } %>`,
 	// helpers that fill defaults into the options map they are given (omitted, empty, with an entry): every call
 	// starts from what the call supplied, whatever earlier calls, executions or templates did with their maps
 	`<%= tagopt() %>|<%= tagopt() %>`, `<%= tagopt({}) %>|<%= tagopt({class: "own"}) %>|<%= tagopt() %>`, `<%= for (i) in ints { %><%= tagopt() %>;<% } %>`, `<%= tagopt2("a") %>|<%= tagopt2("b", {id: 1}) %>|<%= tagopt2("c") %>`,
@@ -975,7 +1006,7 @@ func numbered(t Tmpl, n int64) Tmpl {
 	return out
 }
 
-const rule = "templates: (1) random programs over all constructs (shared generator; some with planted faults so that errors must be deterministic too) spliced with hash literals of 3-5 entries whose values call a recording helper and with duplicate keys; (2) SHAPES written as text over richer data (maps, structs with a nested pointer, a method with per-instance state, a recording method, a value-receiver method, typed slices, a time, an iterator, a helper that counts per context): hash literals of 0..12 entries over a 6-key pool (identifier and string keys, duplicate keys, values that record / count / are literals only / nest) used in place, through let, in a loop body and a function body entered several times, as data of a partial and of contentOf, nested in arrays and hashes, encoded whole, and assigned to after they were made; array literals of 0..6 elements likewise; 1-7 pieces out of 75 (among them helpers that fill defaults into the options map they are given - omitted, empty, with an entry -; sometimes followed by one of 42 pieces that fail: unknown names, missing members, bad indexes and arguments whose printed form holds maps and pointers, failing and panicking helpers) over the rich data (member paths, methods, built-in helpers, iterators, names read before they are made inside a loop body / function body / helper block / partial / stored block that is entered twice, for over a Go map only where the order cannot show: no entry, one entry, a body blind to the entry); (3) any of these with one tag the parser rejects planted in front of one of its tags (18 rejected tags); (4) TWINS: a template of the history again with a minimal difference (white space before/after, one digit, one letter's case, two bytes swapped, last byte dropped, first byte doubled); plus (E) each of the 75 + 42 pieces on its own, the 277 templates harvested from the repository's tests, 9 hash-literal snippets, 21 boundary templates (empty, a lone tag opener or closer, escaped opener, 400 tags, 100 kB of text, 40 nested ifs, a 200-entry hash and array literal) and a partial that includes itself (overlapping executions of one cached template object). Histories: 1-3 templates x up to 14 interleaved actions from 14 routes {Exec again on the parsed template, NewTemplate+Exec, Clone+Exec, Render with the cache off, Render with the cache on and cold (text made unique by a leading comment tag), Render cache-on warm, Parse through the cache then Exec, Exec twice on the cached object, BuffaloRenderer cache off / on, RenderR, a zero-value Template{Input} that parses in its first Exec + second Exec + Clone, Parse() again then Exec, Clone of a Clone then the original}; a template the parser rejects goes through the same routes (Exec / Clone on the Template returned next to the error; the text of the error value held from the first parse is read again at every step); context data rebuilt fresh-but-equal for every execution. (E) every template x all 14 actions x 2 rounds; (E) long runs: one route repeated 40 times (Exec, Clone, warm cache, cached object) for the snippets, every 8th harvested template and fixed templates with white-space-only text between tags; (E) error storms: 14 templates that fail or forgive a failure (partial feeder / render / parse error inside a partial and its layout, a forgiven unknown function, a helper that fails or panics, a failure in a helper block, in a loop, a missing block, a parse error, a failure 12 calls deep in a recursion) executed 1100 times in a row on three routes between executions of a healthy template (nested partials, recursion, helper block, nested arrays, default block) that then goes through all routes; (E) hostile neighbours: 16 templates the parser refuses in an unusual state (code nested 10050 levels deep in each of 9 nesting constructs - the parser's nesting limit -, input that ends inside a string / comment / tag / block / function literal, 200 syntax errors in a row) parsed through every route (quick: 5) between executions of 4 healthy templates, which then go through all 14 routes and are parsed cold again; (E) name leaks: [user, definer, user, definer, user] for 10 templates that only USE a name (let variable, function, contentFor block, partial, loop variable, names made inside a partial; or that make it for themselves) x definers of these names (also as a member name after an index or a call) x every route for the definer (quick: 5 routes) x every route for the user, the names numbered afresh for every history; (R) random histories over (1), and over (1)-(4) mixed. Oracle: every (output, error text with addresses normalised, recorded helper invocation order) equals the first result for that template; the deep structural hash of the parsed program (all fields incl. token lines, pointer topology, H1 accessor) and the Input are identical after every Exec, also for the cached object around a warm render. Excluded by construction: for over Go maps / multi-entry hash literals where the order can show (the licensed variation); printing pointers (addresses are not data). Non-trivial = histories of >= 3 actions; distinct by (templates, actions)."
+const rule = "templates: (1) random programs over all constructs (shared generator; some with planted faults so that errors must be deterministic too) spliced with hash literals of 3-5 entries whose values call a recording helper and with duplicate keys; (2) SHAPES written as text over richer data (maps, structs with a nested pointer, a method with per-instance state, a recording method, a value-receiver method, typed slices, a time, an iterator, a helper that counts per context): hash literals of 0..12 entries over a 6-key pool (identifier and string keys, duplicate keys, values that record / count / are literals only / nest) used in place, through let, in a loop body and a function body entered several times, as data of a partial and of contentOf, nested in arrays and hashes, encoded whole, and assigned to after they were made; array literals of 0..6 elements likewise; 1-7 pieces out of 77 (among them a struct value whose Go type alternates, from execution to execution and within one render, between two types that print alike and hold the same fields in another order; among them helpers that fill defaults into the options map they are given - omitted, empty, with an entry -; sometimes followed by one of 42 pieces that fail: unknown names, missing members, bad indexes and arguments whose printed form holds maps and pointers, failing and panicking helpers) over the rich data (member paths, methods, built-in helpers, iterators, names read before they are made inside a loop body / function body / helper block / partial / stored block that is entered twice, for over a Go map only where the order cannot show: no entry, one entry, a body blind to the entry); (3) any of these with one tag the parser rejects planted in front of one of its tags (18 rejected tags); (4) TWINS: a template of the history again with a minimal difference (white space before/after, one digit, one letter's case, two bytes swapped, last byte dropped, first byte doubled); plus (E) each of the 77 + 42 pieces on its own, the 277 templates harvested from the repository's tests, 9 hash-literal snippets, 21 boundary templates (empty, a lone tag opener or closer, escaped opener, 400 tags, 100 kB of text, 40 nested ifs, a 200-entry hash and array literal) and a partial that includes itself (overlapping executions of one cached template object). Histories: 1-3 templates x up to 14 interleaved actions from 14 routes {Exec again on the parsed template, NewTemplate+Exec, Clone+Exec, Render with the cache off, Render with the cache on and cold (text made unique by a leading comment tag), Render cache-on warm, Parse through the cache then Exec, Exec twice on the cached object, BuffaloRenderer cache off / on, RenderR, a zero-value Template{Input} that parses in its first Exec + second Exec + Clone, Parse() again then Exec, Clone of a Clone then the original}; a template the parser rejects goes through the same routes (Exec / Clone on the Template returned next to the error; the text of the error value held from the first parse is read again at every step); context data rebuilt fresh-but-equal for every execution. (E) every template x all 14 actions x 2 rounds; (E) long runs: one route repeated 40 times (Exec, Clone, warm cache, cached object) for the snippets, every 8th harvested template and fixed templates with white-space-only text between tags; (E) error storms: 14 templates that fail or forgive a failure (partial feeder / render / parse error inside a partial and its layout, a forgiven unknown function, a helper that fails or panics, a failure in a helper block, in a loop, a missing block, a parse error, a failure 12 calls deep in a recursion) executed 1100 times in a row on three routes between executions of a healthy template (nested partials, recursion, helper block, nested arrays, default block) that then goes through all routes; (E) hostile neighbours: 16 templates the parser refuses in an unusual state (code nested 10050 levels deep in each of 9 nesting constructs - the parser's nesting limit -, input that ends inside a string / comment / tag / block / function literal, 200 syntax errors in a row) parsed through every route (quick: 5) between executions of 4 healthy templates, which then go through all 14 routes and are parsed cold again; (E) name leaks: [user, definer, user, definer, user] for 10 templates that only USE a name (let variable, function, contentFor block, partial, loop variable, names made inside a partial; or that make it for themselves) x definers of these names (also as a member name after an index or a call) x every route for the definer (quick: 5 routes) x every route for the user, the names numbered afresh for every history; (R) random histories over (1), and over (1)-(4) mixed. Oracle: every (output, error text with addresses normalised, recorded helper invocation order) equals the first result for that template; the deep structural hash of the parsed program (all fields incl. token lines, pointer topology, H1 accessor) and the Input are identical after every Exec, also for the cached object around a warm render. Excluded by construction: for over Go maps / multi-entry hash literals where the order can show (the licensed variation); printing pointers (addresses are not data). Non-trivial = histories of >= 3 actions; distinct by (templates, actions)."
 
 func setup(t *testing.T) *vk.Run {
 	r := vk.Start(t, "C13", rule,
